@@ -820,6 +820,39 @@ func c18ZeroDen(c *Ctx, p *Prog) {
 func c18TotalOrder(c *Ctx, p *Prog, fns []*ssa.Function, inScope func(*ssa.Function) bool) {
 	const R = "C18/R8"
 	n := 0
+	// every ordering call that receives the collected keys cv (outside the collecting loop, if any) is a total order
+	checkSorts := func(fn *ssa.Function, cv ssa.Value, keyT types.Type, lp *loopInfo) {
+		isCollected := func(v ssa.Value) bool {
+			v = stripIface(v)
+			if v == cv {
+				return true
+			}
+			if ld, ok := v.(*ssa.UnOp); ok && ld.Op == token.MUL && ld.X == cv {
+				return true
+			}
+			if ph, ok := v.(*ssa.Phi); ok {
+				for _, e := range ph.Edges {
+					if e == cv {
+						return true
+					}
+				}
+			}
+			return false
+		}
+		eachInstr(fn, func(b *ssa.BasicBlock, in2 ssa.Instruction) {
+			call, ok := in2.(ssa.CallInstruction)
+			if !ok || (lp != nil && lp.Blocks[b]) || len(call.Common().Args) == 0 || !isCollected(call.Common().Args[0]) {
+				return
+			}
+			if bi, ok := call.Common().Value.(*ssa.Builtin); ok && (bi.Name() == "len" || bi.Name() == "append" || bi.Name() == "cap") {
+				return
+			}
+			n++
+			key := fmt.Sprintf("%s:sort-of-collected-keys#%d", fnName(fn), n)
+			ok2, why := c18SortIsTotal(p, call.Common(), keyT, 0)
+			c.Check(ok2, R, key, p.pos(in2.Pos()), "value sort / comparator over the keys' own components", why)
+		})
+	}
 	for _, fn := range fns {
 		if !inScope(fn) {
 			continue
@@ -867,40 +900,68 @@ func c18TotalOrder(c *Ctx, p *Prog, fns []*ssa.Function, inScope func(*ssa.Funct
 			}
 			for _, cv := range collected {
 				cv := cv
-				isCollected := func(v ssa.Value) bool {
-					v = stripIface(v)
-					if v == cv {
-						return true
-					}
-					if ld, ok := v.(*ssa.UnOp); ok && ld.Op == token.MUL && ld.X == cv {
-						return true
-					}
-					if ph, ok := v.(*ssa.Phi); ok {
-						for _, e := range ph.Edges {
-							if e == cv {
-								return true
-							}
-						}
-					}
-					return false
-				}
-				eachInstr(fn, func(b *ssa.BasicBlock, in2 ssa.Instruction) {
-					call, ok := in2.(ssa.CallInstruction)
-					if !ok || lp.Blocks[b] || len(call.Common().Args) == 0 || !isCollected(call.Common().Args[0]) {
-						return
-					}
-					if bi, ok := call.Common().Value.(*ssa.Builtin); ok && (bi.Name() == "len" || bi.Name() == "append" || bi.Name() == "cap") {
-						return
-					}
-					n++
-					key := fmt.Sprintf("%s:sort-of-collected-keys#%d", fnName(fn), n)
-					ok2, why := c18SortIsTotal(p, call.Common(), keyT, 0)
-					c.Check(ok2, R, key, p.pos(in2.Pos()), "value sort / comparator over the keys' own components", why)
-				})
+				checkSorts(fn, cv, keyT, lp)
 			}
 		}
+		// keys obtained from a collecting helper (a function that ranges over a map and returns the keys unsorted)
+		eachInstr(fn, func(_ *ssa.BasicBlock, in ssa.Instruction) {
+			call, ok := in.(*ssa.Call)
+			if !ok || !isKeyCollector(call.Call.StaticCallee()) {
+				return
+			}
+			sl, ok := call.Type().Underlying().(*types.Slice)
+			if !ok {
+				return
+			}
+			var got ssa.Value = call
+			if refs := call.Referrers(); refs != nil && len(*refs) == 1 {
+				if st, ok := (*refs)[0].(*ssa.Store); ok {
+					if al, ok := st.Addr.(*ssa.Alloc); ok && st.Val == ssa.Value(call) {
+						got = al
+					}
+				}
+			}
+			checkSorts(fn, got, sl.Elem(), nil)
+		})
 	}
 	c.Floor(R, "sorts of collected map keys", n, 3)
+}
+
+// isKeyCollector: f (or the generic function it instantiates) ranges over a map parameter, appends, returns a slice
+// of the map's key type and sorts nothing itself.
+func isKeyCollector(f *ssa.Function) bool {
+	if f == nil {
+		return false
+	}
+	if f.Origin() != nil {
+		f = f.Origin()
+	}
+	if f.Blocks == nil || f.Signature.Results().Len() != 1 {
+		return false
+	}
+	rs, ok := f.Signature.Results().At(0).Type().Underlying().(*types.Slice)
+	if !ok {
+		return false
+	}
+	ranges, appends, sorts := false, false, false
+	eachInstr(f, func(_ *ssa.BasicBlock, in ssa.Instruction) {
+		switch x := in.(type) {
+		case *ssa.Range:
+			if mt, ok := x.X.Type().Underlying().(*types.Map); ok && types.Identical(mt.Key(), rs.Elem()) {
+				if _, isParam := x.X.(*ssa.Parameter); isParam {
+					ranges = true
+				}
+			}
+		case *ssa.Call:
+			if bi, ok := x.Call.Value.(*ssa.Builtin); ok && bi.Name() == "append" {
+				appends = true
+			}
+			if isSortCallShallow(&x.Call) {
+				sorts = true
+			}
+		}
+	})
+	return ranges && appends && !sorts
 }
 
 func c18SortIsTotal(p *Prog, cc *ssa.CallCommon, keyT types.Type, depth int) (bool, string) {
